@@ -67,18 +67,46 @@ func oamProgram(rng *rand.Rand, n int) []int {
 	return code
 }
 
+// denseProgram: a loop that touches OAM through a pointer every few cycles, so that every cycle of a line (the last
+// cycle of the scan, the first of the pixel transfer, the last of line 153) meets every kind of trigger.
+// kind 0: INC HL / DEC HL; 1: LD A,(HL+) / LD A,(HL-) (read and pointer move in one cycle); 2: POP AF / PUSH AF with
+// SP in OAM; 3: LD (HL+),A / LD (HL-),A. align NOPs in front shift the loop against the line.
+func denseProgram(kind, align int) []int {
+	var code []int
+	for i := 0; i < align; i++ {
+		code = append(code, 0x00)
+	}
+	code = append(code, 0x21, 0x48, 0xfe, 0x31, 0x50, 0xfe)
+	var body []int
+	switch kind {
+	case 0:
+		body = []int{0x23, 0x2b}
+	case 1:
+		body = []int{0x2a, 0x3a}
+	case 2:
+		body = []int{0xf1, 0xf5}
+	default:
+		body = []int{0x22, 0x32}
+	}
+	for len(code) < 0x11f0 {
+		code = append(code, body...)
+	}
+	return code
+}
+
 type oamBugJob struct {
 	id     string
 	seed   int64
 	offAt  int // machine cycle at which the LCD is switched off (-1: stays on)
 	cycles int
 	warm   int // PPU-only cycles before the CPU starts (chooses the line)
+	dense  int // 0: random program; 1 + 8*align + kind: denseProgram(kind, align), objects enabled
 }
 
 func oamBugRun(j oamBugJob) *trace.Scenario {
 	rng := rand.New(rand.NewSource(j.seed))
 	m := machine.New(intROM, machine.Options{})
-	sc := &trace.Scenario{ID: j.id, Reset: []any{j.seed, j.offAt, j.cycles, j.warm}}
+	sc := &trace.Scenario{ID: j.id, Reset: []any{j.seed, j.offAt, j.cycles, j.warm, j.dense}}
 	var writes [][]int
 	on := false
 	memory.VerifBusObserver = func(mm *memory.Mapper, write bool, addr uint16, value uint8) {
@@ -89,6 +117,9 @@ func oamBugRun(j oamBugJob) *trace.Scenario {
 	defer func() { memory.VerifBusObserver = nil }()
 	perr := machine.Try(func() {
 		code := oamProgram(rng, 0x1200)
+		if j.dense > 0 {
+			code = denseProgram((j.dense-1)%8, (j.dense-1)/8)
+		}
 		code = append(code, 0xc3, 0x00, 0xc0)
 		for i, b := range code {
 			m.M.Write(uint16(0xc000+i), uint8(b))
@@ -98,7 +129,11 @@ func oamBugRun(j oamBugJob) *trace.Scenario {
 		for i := 0; i < 160; i++ {
 			m.O.Write(uint16(0xfe00+i), uint8(rng.Intn(256)))
 		}
-		m.P.WriteLCDC(0x91)
+		if j.dense > 0 {
+			m.P.WriteLCDC(0x93) // objects on: the PPU then moves through OAM rows during the pixel transfer as well
+		} else {
+			m.P.WriteLCDC(0x91)
+		}
 		r := m.CPU.VerifGet()
 		r.PC, r.SP = 0xc000, 0xdff0
 		m.CPU.VerifSet(r)
@@ -154,7 +189,11 @@ func oamBugMain(c *Ctx) {
 		}
 		for _, s := range scs {
 			r := s.Reset.([]any)
-			w.Put(oamBugRun(oamBugJob{s.ID, int64(trace.Int(r[0])), trace.Int(r[1]), trace.Int(r[2]), trace.Int(r[3])}))
+			dense := 0
+			if len(r) > 4 {
+				dense = trace.Int(r[4])
+			}
+			w.Put(oamBugRun(oamBugJob{s.ID, int64(trace.Int(r[0])), trace.Int(r[1]), trace.Int(r[2]), trace.Int(r[3]), dense}))
 		}
 		w.Close()
 		return
@@ -170,7 +209,7 @@ func oamBugMain(c *Ctx) {
 	}
 	for _, line := range lines {
 		for k := 0; k < 114; k += step {
-			w.Put(oamBugRun(oamBugJob{fmt.Sprintf("oambug-off-%d", n), rng.Int63n(1 << 40), 30 + k, 30 + k + 600, 3 + line*114 + rng.Intn(3)}))
+			w.Put(oamBugRun(oamBugJob{fmt.Sprintf("oambug-off-%d", n), rng.Int63n(1 << 40), 30 + k, 30 + k + 600, 3 + line*114 + rng.Intn(3), 0}))
 			n++
 		}
 	}
@@ -180,8 +219,21 @@ func oamBugMain(c *Ctx) {
 		count = 300
 	}
 	for i := 0; i < count; i++ {
-		w.Put(oamBugRun(oamBugJob{fmt.Sprintf("oambug-on-%d", n), rng.Int63n(1 << 40), -1, 6000, 3 + rng.Intn(17000)}))
+		w.Put(oamBugRun(oamBugJob{fmt.Sprintf("oambug-on-%d", n), rng.Int63n(1 << 40), -1, 6000, 3 + rng.Intn(17000), 0}))
 		n++
+	}
+	// dense trigger loops, LCD on: over the end of the frame (line 153 into line 0) and over visible lines
+	aligns := 6
+	for kind := 0; kind < 4; kind++ {
+		for align := 0; align < aligns; align++ {
+			for _, warm := range []int{17556 - 1500, 300 + rng.Intn(8000)} {
+				if !c.Thorough() && warm < 16000 && (kind+align)%2 == 1 {
+					continue
+				}
+				w.Put(oamBugRun(oamBugJob{fmt.Sprintf("oambug-dense-%d", n), rng.Int63n(1 << 40), -1, 3200, warm, 1 + 8*align + kind}))
+				n++
+			}
+		}
 	}
 	w.Close()
 }
